@@ -209,9 +209,10 @@ claim('C16',
           'is the last total); the sum form follows by telescoping (hand lemma)',
           'user code does not call add_value on sources / sinks directly',
           'Batch.value == sum of the values of the contained items (each through its own value property) is machine-checked '
-          '(lsum with the congruence lemma for finite sums as an axiom); System.get_net_value_of_assets == sum over the registered '
-          'assets is NOT (filtered generator; literally `sum(x.value for x in self._assets if isinstance(x, Asset))`); the value '
-          'of a nested batch is the uninterpreted batch_value(heap)',
+          '(lsum with the congruence lemma for finite sums as an axiom); System.get_net_value_of_assets == sum of the values of '
+          'all registered assets is machine-checked as well (A3: a filtered generator contributes 0 for the elements it skips; '
+          'nothing is skipped because the registry holds Assets only); the value of a nested batch is the uninterpreted '
+          'batch_value(heap)',
       ],
       explanation='Asset invariant + add_value/add_cost/initialize posts; Source: cost tally and value move by the value the part '
                   'had when it left (snapshot before the hand-over); Sink: value grows by the value at receipt; Maintainer charges the '
